@@ -82,7 +82,13 @@ const STRATEGIES: [&str; 7] = [
     "service(failing)",
     "exception",
 ];
-const PREDICATES: [&str; 4] = ["none", "accept all", "refuse all", "accept odd codes"];
+const PREDICATES: [&str; 5] = [
+    "none",
+    "accept all",
+    "refuse all",
+    "accept odd codes",
+    "accept every other time it is asked",
+];
 
 const BACKUP_BASE: u64 = 9_000_000;
 const READY_SERIAL: u64 = 424_242;
@@ -124,7 +130,7 @@ async fn run_grid(case: &FbCase) -> (Vec<String>, usize, Vec<serde_json::Value>)
     let mut cells = 0usize;
     let mut samples = vec![];
     for strat in 0..7usize {
-        for pred in 0..4usize {
+        for pred in 0..5usize {
             for outcome in 0..3usize {
                 cells += 1;
                 let log = Log::new();
@@ -155,13 +161,21 @@ async fn run_grid(case: &FbCase) -> (Vec<String>, usize, Vec<serde_json::Value>)
                     serial: VAL_BASE + case.value_serial,
                     req: zero_req(),
                 };
+                let asked = Arc::new(AtomicU64::new(0));
+                let mut errors_seen = 0u64;
                 let mut b = FallbackLayer::<Req, Resp, SErr>::builder().name("vcheck");
                 if case.handle_first {
                     b = match pred {
                     0 => b,
                     1 => b.handle(|_e: &SErr| true),
                     2 => b.handle(|_e: &SErr| false),
-                    _ => b.handle(|e: &SErr| e.code % 2 == 1),
+                    3 => b.handle(|e: &SErr| e.code % 2 == 1),
+                    _ => {
+                        // stateful predicate (a fallback budget, a sampler): it is to be asked once
+                        // per inner error
+                        let asked = asked.clone();
+                        b.handle(move |_e: &SErr| asked.fetch_add(1, Ordering::SeqCst) % 2 == 0)
+                    }
                     };
                 }
                 b = match strat {
@@ -221,7 +235,13 @@ async fn run_grid(case: &FbCase) -> (Vec<String>, usize, Vec<serde_json::Value>)
                     0 => b,
                     1 => b.handle(|_e: &SErr| true),
                     2 => b.handle(|_e: &SErr| false),
-                    _ => b.handle(|e: &SErr| e.code % 2 == 1),
+                    3 => b.handle(|e: &SErr| e.code % 2 == 1),
+                    _ => {
+                        // stateful predicate (a fallback budget, a sampler): it is to be asked once
+                        // per inner error
+                        let asked = asked.clone();
+                        b.handle(move |_e: &SErr| asked.fetch_add(1, Ordering::SeqCst) % 2 == 0)
+                    }
                     };
                 }
                 let layer = b.build();
@@ -256,7 +276,7 @@ async fn run_grid(case: &FbCase) -> (Vec<String>, usize, Vec<serde_json::Value>)
                 let mut svc = layer.layer(inner.clone());
                 // groups of calls issued together: singletons, or (overlap modes) the first call alone
                 // and all further calls of the cell in flight at once
-                let groups: Vec<Vec<usize>> = if case.group_mode == 0 || seq.len() < 3 {
+                let groups: Vec<Vec<usize>> = if case.group_mode == 0 || seq.len() < 3 || pred == 4 {
                     (0..seq.len()).map(|j| vec![j]).collect()
                 } else {
                     vec![vec![0], (1..seq.len()).collect()]
@@ -344,7 +364,7 @@ async fn run_grid(case: &FbCase) -> (Vec<String>, usize, Vec<serde_json::Value>)
                 let Some(result) = results[pos].take() else {
                     // cancelled (or reported above as unresolved): only its side effects count
                     let code = match outcome { 1 => case.code_a, 2 => case.code_b, _ => 0 };
-                    if outcome != 0 && match pred { 0 | 1 => true, 2 => false, _ => code % 2 == 1 } && strat != 0 {
+                    if outcome != 0 && match pred { 0 | 1 => true, 2 => false, 3 => code % 2 == 1, _ => true } && strat != 0 {
                         handled_all += 1;
                     }
                     continue;
@@ -400,8 +420,13 @@ async fn run_grid(case: &FbCase) -> (Vec<String>, usize, Vec<serde_json::Value>)
                     && match pred {
                         0 | 1 => true,
                         2 => false,
-                        _ => code % 2 == 1,
+                        3 => code % 2 == 1,
+                        // asked once per inner error, it accepts the 1st, 3rd, 5th ... of them
+                        _ => errors_seen % 2 == 0,
                     };
+                if outcome != 0 {
+                    errors_seen += 1;
+                }
                 let n_inv = if solo { group_inv } else { u64::MAX };
                 let describe = |r: &Result<Resp, FallbackError<SErr>>| format!("{r:?}");
                 if !handled {
@@ -511,7 +536,7 @@ impl Property for C17 {
             r.fail(m.clone());
         }
         r.nontrivial = true;
-        r.class("full_grid_84_cells");
+        r.class("full_grid_105_cells");
         if !case.more_calls.is_empty() {
             r.class("several_calls_per_cell");
         }
@@ -528,7 +553,7 @@ impl Property for C17 {
         r
     }
     fn rule(&self) -> String {
-        "every generated case (request id/key/tag, value payload, two inner error codes and a backup error code of either parity, inner latency 0-2 ms) enumerates the complete grid {value, value_fn, from_error, from_request_error, backup service ok, backup service failing, exception} x {no predicate, accept all, refuse all, accept odd codes} x {inner ok, error a, error b} = 84 cells (exhaustive for the finite part); each cell's layer then takes 0-3 further generated calls (other outcomes) through the same service, a clone or a second service built from the same layer, so that per-invocation strategies (value_fn counter) are exercised repeatedly; in two of four cases those further calls are in flight together, and in one of four the first of them is dropped while its fallback is pending. Oracle: pure reference function: success or refused error => inner result unchanged (serial/code identity) and no strategy or backup invocation; handled error => exactly the strategy's value for this request and this error (value identity, error encoded in the response, request echoed, backup entered once with this request, FallbackFailed carrying the backup's error, transformed error); inner service entered exactly once with the identical request. Non-trivial: every case contains all handled-error cells; distinct by hash of the payloads".into()
+        "every generated case (request id/key/tag, value payload, two inner error codes and a backup error code of either parity, inner latency 0-2 ms) enumerates the complete grid {value, value_fn, from_error, from_request_error, backup service ok, backup service failing, exception} x {no predicate, accept all, refuse all, accept odd codes, stateful: accept every other time it is asked} x {inner ok, error a, error b} = 105 cells (exhaustive for the finite part); each cell's layer then takes 0-3 further generated calls (other outcomes) through the same service, a clone or a second service built from the same layer, so that per-invocation strategies (value_fn counter) are exercised repeatedly; in two of four cases those further calls are in flight together, and in one of four the first of them is dropped while its fallback is pending. Oracle: pure reference function: success or refused error => inner result unchanged (serial/code identity) and no strategy or backup invocation; handled error => exactly the strategy's value for this request and this error (value identity, error encoded in the response, request echoed, backup entered once with this request, FallbackFailed carrying the backup's error, transformed error); inner service entered exactly once with the identical request. Non-trivial: every case contains all handled-error cells; distinct by hash of the payloads".into()
     }
     fn assumptions(&self) -> Vec<String> {
         vec!["one request per grid cell; payloads are drawn, the grid is enumerated".into()]
